@@ -14,7 +14,7 @@ from ..model import norm, walk_no_nested, AnalysisError, FuncInfo
 from ..rdef import flow_of, ENTRY
 
 EXPLANATION = (
-    "The numeric closure of the balance (1e-6 mm) is NOT decided. Decided, for all inputs: C01.a carry-over: between "
+    "The numeric closure of the balance (1e-6 mm) is C01.g (T-ARGS): in no call below the daily step are two positional arguments bound crosswise (the actual at i spelled like formal j and the actual at j like formal i): the fluxes and states are threaded through long positional lists. NOT decided. Decided, for all inputs: C01.a carry-over: between "
     "two calls of the daily solution the only stores to the water content / ponding are those of the season reset, "
     "under sim_off_season is False, and the configured initial content they restore is never written in place or "
     "aliased (shared with C08.b). C01.b conservation per store (polynomial normal forms): in pre-irrigation, "
@@ -476,6 +476,9 @@ def run(chk, prog, tier):
         if v["rule"] == "C02.c":
             v["rule"] = "C01.e"
     chk.assume("A-10")
+    # C01.g: no two positional arguments of a call below the daily step are bound crosswise (T-ARGS)
+    from ._args import arg_swaps
+    chk.floor("C01.g", arg_swaps(chk, prog, "C01.g", prog.reachable_from(STEP_FN)), 45, "positional calls of repository functions below the daily step")
     # C01.f: thickness agreement of every depth <-> content conversion (covers drainage / infiltration redistribution loops too)
     from . import _thick
     n = _thick.scan(chk, prog, "C01.f", prog.reachable_from(STEP_FN))
